@@ -230,3 +230,74 @@ def replay(me, r):
             print("object %d: %s" % (op[1], "register s1" if op[0] == "R" else "retire s1, register s2"))
     print("property holds on this input" if ok else "property FAILS on this input")
     return 0 if ok else 1
+
+
+# ------------------------------------------------------------------------------------------------------------------------
+# configuration-session names that are already names of levels (suite `session-name-is-a-level`, oracle-only)
+# ------------------------------------------------------------------------------------------------------------------------
+def _base_samples(me, rx, plat_info, rng, per=2):
+    out = []
+    for o in plat_info["info"]["obs"]:
+        if o["variant"] != "base":
+            continue
+        for _ in range(per):
+            m = me.sample_member(rx, o, rng, 10)
+            if m:
+                out.append((o["mode"], m.hex(), me.expected_class(o)))
+    return out
+
+
+def run_session_name(me, p, stack, names, samples):
+    """register each name in turn on ONE driver (a refusal is an acceptable outcome); then classify the base prompts"""
+    d = me.make_real_driver(p, "base", stack)
+    outcomes = []
+    for n in names:
+        try:
+            d.register_configuration_session(session_name=n)
+            outcomes.append("registered")
+        except Exception as e:  # noqa
+            outcomes.append(type(e).__name__)
+    got = [me.real_classify(d, bytes.fromhex(h).decode("latin-1")) for _, h, _ in samples]
+    return outcomes, got
+
+
+def session_name_suite(me, rep, rx, plats, rng, thorough, info_all):
+    """the user registers a configuration session whose name is the name of an existing level (a core level, or a session
+    registered before): whatever register_configuration_session does with it — the unchanged tree refuses — every prompt of the
+    platform's base grammars must still map to its own level(s) afterwards"""
+    stats = {"runs": 0, "refused": 0, "registered": 0, "oracle_failures": 0}
+    reported = 0
+    for p in ("cisco_nxos", "arista_eos"):
+        if p not in plats:
+            continue
+        samples = _base_samples(me, rx, plats[p], rng, 3 if thorough else 2)
+        core = list(me.make_real_driver(p, "base").privilege_levels)
+        for stack in ("sync", "async"):
+            fams = [[n] for n in core] + [["s1", "s1"], ["s1", core[0]]] + [[n.upper()] for n in core[:2]]
+            for names in fams:
+                outcomes, got = run_session_name(me, p, stack, names, samples)
+                stats["runs"] += 1
+                stats["refused"] += sum(o != "registered" for o in outcomes)
+                stats["registered"] += sum(o == "registered" for o in outcomes)
+                rep.case(("sessname", p, stack, tuple(names)))
+                for (mode, h, want), g in zip(samples, got):
+                    if g != want:
+                        stats["oracle_failures"] += 1
+                        if reported < 3:
+                            reported += 1
+                            t = bytes.fromhex(h).decode("latin-1")
+                            rep.violation("%s (%s): after register_configuration_session(%s) [%s] the %s prompt %r is classified %s, expected %s" % (
+                                p, stack, ", ".join(map(repr, names)), ", ".join(outcomes), mode, t, g, want),
+                                {"kind": "session-name", "platform": p, "stack": stack, "names": names, "prompt_hex": h, "mode": mode,
+                                 "expected": want, "rerun": "./check C05 --replay <this file>"})
+                        break
+    info_all["session_name_is_a_level"] = stats
+
+
+def replay_session_name(me, r):
+    outcomes, got = run_session_name(me, r["platform"], r.get("stack", "sync"), r["names"], [(r["mode"], r["prompt_hex"], r["expected"])])
+    t = bytes.fromhex(r["prompt_hex"]).decode("latin-1")
+    print("%s: register_configuration_session(%s) -> %s; %r classified %s, expected %s" % (r["platform"], r["names"], outcomes, t, got[0], r["expected"]))
+    ok = got[0] == r["expected"]
+    print("property holds on this input" if ok else "property FAILS on this input")
+    return 0 if ok else 1
